@@ -235,6 +235,10 @@ def judge_doc(ctx, text, npts=40):
     gv = [m for m in _c01.grammar_check(ctx, [(_tw.encode(root_), 3, False)])[0] if "not rounded" not in m]
     if gv:
         return "result is not a picosvg (Spec.Pico): %s" % gv[:3], True
+    from props import c08 as _c08
+    rw_ = _c08.refs_check(out)
+    if rw_ and not rw_.startswith("orphaned gradient") and not _c08.refs_check(text):
+        return "after the clip a reference no longer resolves: %s" % rw_, True
     import re as _re
     if _re.search(r"<path(?![^>]*\sd=)[^>]*>", out) or _re.search(r'<path[^>]*\sd=""', out):
         return "a shape with no geometry left is kept as an empty path: %s" % out[:300], True
@@ -389,6 +393,8 @@ def search(ctx, disagreements):
         for k in kinds:
             ctx.count("placed:" + k)
         docs.append(t)
+    docs.extend(BBOX_PAINT_DOCS)
+    docs.extend(SHARED_PAINT_DOCS)
     nontrivial = 0
     for t in docs:
         o, res = common.outcome_of(lambda: judge_doc(ctx, t))
@@ -455,8 +461,40 @@ def search(ctx, disagreements):
     return found
 
 
+# picosvgs whose straddling shape is painted in units of its own bounding box: cutting the shape must not move the paint
+_G = ('<defs><linearGradient id="g"><stop offset="0" stop-color="red"/><stop offset="1" stop-color="blue"/></linearGradient>'
+      '<radialGradient id="r"><stop offset="0" stop-color="lime"/><stop offset="1" stop-color="black"/></radialGradient></defs>')
+BBOX_PAINT_DOCS = [
+    '<svg xmlns="http://www.w3.org/2000/svg" viewBox="0 0 10 10">' + _G + '<path fill="url(#g)" d="M5,2 L15,2 L15,6 L5,6 Z"/></svg>',
+    '<svg xmlns="http://www.w3.org/2000/svg" viewBox="0 0 20 20">' + _G + '<path fill="url(#r)" d="M-8,4 L12,4 L12,16 L-8,16 Z"/><path fill="url(#g)" d="M2,17 L8,17 L8,19 L2,19 Z"/></svg>',
+]
+
+
+# one user-space gradient shared by a shape that the clip dumps, one it cuts and one it leaves alone
+_U = ('<defs><linearGradient id="u" gradientUnits="userSpaceOnUse" x1="0" y1="0" x2="20" y2="0"><stop offset="0" stop-color="red"/>'
+      '<stop offset="1" stop-color="blue"/></linearGradient></defs>')
+SHARED_PAINT_DOCS = [
+    '<svg xmlns="http://www.w3.org/2000/svg" viewBox="0 0 20 20">' + _U + '<path fill="url(#u)" d="M30,2 L40,2 L40,8 L30,8 Z"/><path fill="url(#u)" d="M2,2 L8,2 L8,8 L2,8 Z"/></svg>',
+    '<svg xmlns="http://www.w3.org/2000/svg" viewBox="0 0 20 20">' + _U + '<path fill="url(#u)" d="M2,12 L8,12 L8,18 L2,18 Z"/><path fill="url(#u)" d="M-30,2 L-22,2 L-22,8 L-30,8 Z"/>'
+    '<path fill="url(#u)" d="M15,2 L25,2 L25,8 L15,8 Z"/></svg>',
+]
+
+
 def classify(v, findings):
+    for e in findings:
+        if e.get("status") == "finding" and v.get("kind") == "clip-law" and v.get("input") in e.get("witnesses", []):
+            return e["id"]
     return None
+
+
+def replay_finding(ctx, e):
+    import random as _r
+    for t in e.get("witnesses", []):
+        ctx.rng = _r.Random(7)
+        o, res = common.outcome_of(lambda: judge_doc(ctx, t, npts=200))
+        if o == "ok" and res[0]:
+            return True
+    return False
 
 
 def replay(ctx, payload):
